@@ -251,6 +251,14 @@ def coq_eval(tag, imports, check_fn, cases, shard=400, timeout=600, preamble="",
     d = os.path.join(COQ, "_cases")
     os.makedirs(d, exist_ok=True)
     _t0 = time.time()
+    # make sure every imported module of the development is compiled against the current sources
+    mods = set(re.findall(r"\b([A-Z][A-Za-z0-9_]*)\b", " ".join(re.findall(r"From PV Require Import ([^.]*)\.", imports + " From PV Require Import CaseLib."))))
+    targets = [f[:-2] + ".vo" for f in coq_files() if os.path.basename(f)[:-2] in mods]
+    if targets:
+        with build_lock():
+            okb, log = make(targets)
+        if not okb:
+            return [("error", 0, "building %s failed: %s" % (targets, log[-1500:]))], [log]
     for f in glob.glob(os.path.join(d, "%s_*" % tag)):
         os.remove(f)
     files = []
